@@ -384,7 +384,7 @@ def base_cfg(rng, family, sa, sb):
 
 def cases_for(rng, thorough):
     cases = []
-    reps = 1 if not thorough else 4
+    reps = 2 if not thorough else 8
     for family in FAMILIES:
         if family == "LinearHomeostasis":
             for param in ("weight", "bias", "delay"):
@@ -517,6 +517,7 @@ def explore(ctx) -> Exploration:
             bad = None
             if not view_close(rec["s"], ds):
                 if cfg["family"] == "LinearHomeostasis" and is_d9(rec, dm, ds):
+                    seen_keys[KNOWN_D9 + ":all"] = seen_keys.get(KNOWN_D9 + ":all", 0) + 1
                     bad = ("spec", KNOWN_D9, f"LinearHomeostasis({cfg['param']}) hands a depressive part <= 0: observed `{rec['s']}`, "
                                              f"the split of the signed term must be `{ds}`; the applied change is |k|")
                 else:
@@ -555,6 +556,12 @@ def explore(ctx) -> Exploration:
     ex.samples = [{"config": {k: v for k, v in cases[0].items() if k != "history"}, "request": runs[0][-1]["line"] if runs[0] else None},
                   {"config": {k: v for k, v in cases[-1].items() if k != "history"}}]
     ex.extra["trainer_cases"] = len(cases)
+    nh = sum(len(r) for c, r in zip(cases, runs) if c["family"] == "LinearHomeostasis")
+    ex.extra["unproved_subclaims"] = [{
+        "claim": "homeostasis_split (FULL STATEMENT in Props/C09.lean): depressive part >= 0 and pos - neg = k for LinearHomeostasis",
+        "status": "false for the code (negation witness homeostasis_neg_part_negative proved); known finding " + KNOWN_D9,
+        "proved_instead": ["homeostasis_split_partial", "homeostasis_net_is_abs", "homeostasis_neg_part_negative"],
+        "cases_explored": nh, "cases_exhibiting_the_finding": seen_keys.get(KNOWN_D9 + ":all", 0)}]
     return ex
 
 
